@@ -7,6 +7,7 @@ CONSTANTS
   Genesis <- Gen3
   Rankings <- Rank2
   Counts <- C3
+  ContentSet <- Every
   DefaultCount = 3
   MaxChanges = 2
   MaxLibLag = 11
